@@ -935,6 +935,12 @@ def _():
             ('both', [Implies(lhs, rhs), Implies(rhs, lhs)], lhs == rhs)]
 
 
+@proof('regexp', 'relabel-store')
+def _():
+    R = Const('R_', T.RelA); lv = Const('lv_', T.LabA); k = Const('k_', T.Key2); r = Const('r_', Regexp)
+    return ext_eq_s(T.relabel(z3.Store(R, k, True), z3.Store(lv, k, r)), z3.Store(T.relabel(R, lv), k, r), T.Key2)
+
+
 def int_ind(P, lo=0):
     """induction on an integer >= lo: P(lo) and (j >= lo and P(j)) => P(j+1)"""
     j = fresh_z('j', z3.IntSort())
